@@ -163,3 +163,21 @@ Definition S_link_recompress_files : Prop :=
     /\ par_comp leB (fl_codes fB) (params_of_flags fB) cuts g' sels arrival
        = SpliceOk bs lens (nsum (map nlen g)) (nlen g)
     /\ load_seq leB textB (bs ++ restB) = Some (g, restB).
+
+(** ** C06 o C03: the recursion bound of random access is met by what the compressors emit.
+    [S_ra_fuel] (C03) assumes the selection respects [max_ref]; C06 proves that of the
+    greedy and of the Zuckerli-style compressor.  Composed: on the output of either
+    compressor with [max_ref = Some m], [m + 1] nested decodes reach every node's list. *)
+Definition S_link_ra_fuel_greedy : Prop := forall le cs p g rest m x l,
+  codes_ok cs = true -> Forall inc g -> max_ref p = Some m -> nth_opt g x = Some l ->
+  let sel := greedy_sel p cs 0 g in
+  ra_labels bits (rd_bits le cs)
+    (seek_bits (enc_offs le cs p g sel) (enc_stream le cs p g sel rest)) p (S (N.to_nat m))
+    (N.of_nat x) = Some l.
+
+Definition S_link_ra_fuel_zuck : Prop := forall le cs p k g rest m x l,
+  codes_ok cs = true -> Forall inc g -> max_ref p = Some m -> nth_opt g x = Some l ->
+  let sel := zuck_sel p cs k 0 g in
+  ra_labels bits (rd_bits le cs)
+    (seek_bits (enc_offs le cs p g sel) (enc_stream le cs p g sel rest)) p (S (N.to_nat m))
+    (N.of_nat x) = Some l.
